@@ -4,6 +4,7 @@ import (
 	"fmt"
 	"github.com/jsightapi/jsight-api-go-library/directive"
 	"math/bits"
+	"strings"
 	"time"
 
 	"verif/internal/doc"
@@ -146,6 +147,16 @@ func runC07(c *fw.Ctx) {
 			return
 		}
 		if oi.OK() && oi.JSON == o.JSON {
+			// the same two documents with CRLF line ends (free text is content, but it is the same
+			// content on both sides): still equal
+			tc, ic := strings.ReplaceAll(text, "\n", "\r\n"), strings.ReplaceAll(it, "\n", "\r\n")
+			oc, oic := run1(tc), run1(ic)
+			if oc.OK() && !oc.Crashed() && !oic.Crashed() && !(oic.OK() && oic.JSON == oc.JSON) {
+				if fw.Confirm(func() bool { a, b := run1(tc), run1(ic); return a.OK() && !(b.OK() && a.JSON == b.JSON) }) {
+					c.Violate("paste-not-inline", "C07:inline-crlf:"+label[:indexOr(label, ' ')], fmt.Sprintf("%s with CRLF line ends: with macros %s, inlined %s; %s", label, oc.Short(), oic.Short(), firstDiff(oc.JSON, oic.JSON)), map[string]interface{}{"with_macros": tc, "inlined": ic})
+				}
+				return
+			}
 			c.Sample("inline-equal", 3, map[string]interface{}{"label": label, "text": text})
 			return
 		}
